@@ -8,6 +8,7 @@ import (
 	"crypto/tls"
 	"crypto/x509"
 	"fmt"
+	"github.com/saucelabs/forwarder/internal/zzverif/simnet"
 	"net"
 	"regexp"
 	"strings"
@@ -102,6 +103,8 @@ var connectTo = []struct {
 	{"first-match-wins", []pair{{"", "80", "redir.test", "9000"}, {"origin.test", "80", "other.test", "1"}}},
 	{"second-rule-matches", []pair{{"nomatch.test", "80", "other.test", "1"}, {"origin.test", "", "redir.test", ""}}},
 	{"https-port", []pair{{"", "443", "redir.test", "9000"}, {"", "8443", "redir.test", "9001"}}},
+	// chained rules: the mapping is applied once, never to its own result
+	{"swap", []pair{{"origin.test", "80", "redir.test", "9000"}, {"redir.test", "9000", "origin.test", "80"}, {"up.test", "8080", "b.test", "2"}, {"b.test", "2", "up.test", "8080"}}},
 }
 
 func applyConnectTo(rules []pair, addr string) string {
@@ -221,6 +224,11 @@ func scenario(x *explore.X, product int) {
 		return
 	}
 	want := expectRoute(up, dd, mode, ct, tg, kind)
+	// the first connection attempt to the right party may fail (refused) and be retried: the retry goes to the same party
+	firstFails := x.Choose("first-dial-attempt-refused", 2) == 1 && want.dial != ""
+	if firstFails {
+		w.Net.Plan[strings.ToLower(want.dial)] = simnet.RefuseOnce
+	}
 	x.Logf("upstream=%s direct-domains=%s localhost-mode=%s connect-to=%s target=%s kind=%d => %s dial %s", up.name, dd.name, mode, ctName, tg.name, kind, want.kind, want.dial)
 
 	servers := map[string]*world.Server{}
@@ -268,6 +276,9 @@ func scenario(x *explore.X, product int) {
 		cl.Send([]byte("GET /x HTTP/1.1\r\nHost: " + authority + "\r\n\r\n"))
 	}
 	world.Settle(100 * time.Millisecond)
+	if firstFails {
+		world.Settle(5 * time.Second) // the retry waits on the virtual clock
+	}
 
 	// Which endpoints were contacted?
 	var contacted []string
@@ -306,6 +317,20 @@ func scenario(x *explore.X, product int) {
 		}
 	default:
 		ds := w.Net.Dials()
+		if firstFails {
+			// every attempt goes to the right party; the first is refused, exactly one connects
+			okAttempts := len(ds) >= 2 && ds[0].Outcome == "refused" && ds[len(ds)-1].Outcome == "connected"
+			for _, d := range ds {
+				if d.Addr != strings.ToLower(want.dial) {
+					okAttempts = false
+				}
+			}
+			if !okAttempts || len(contacted) != 1 {
+				fail("wrong-party-contacted/after-a-refused-attempt", "the first attempt to %s is refused: every attempt must go there and one must connect", want.dial)
+				break
+			}
+			ds = ds[len(ds)-1:]
+		}
 		if len(ds) != 1 || ds[0].Addr != strings.ToLower(want.dial) || ds[0].Outcome != "connected" || len(contacted) != 1 {
 			fail("wrong-party-contacted", "want exactly one connection, to %s", want.dial)
 			break
@@ -546,7 +571,7 @@ func historyScenario(x *explore.X, n int) {
 
 func TestC05(t *testing.T) {
 	s := explore.NewSuite(t, "C05", "exploration",
-		"configuration = upstream(21: none, static http/https/socks5, PAC scripts returning each result string of the alphabet incl. errors) x direct-domains(4) x proxy-localhost(3) x connect-to rule list(8) x target(6: names, explicit port, localhost, IPv6 literal, loopback IP) x kind(plain HTTP, CONNECT, inside MITM); deviation-bounded exploration (D=3 quick, 4 thorough) plus the full product upstream x direct-domains x localhost mode x target x kind (thorough) and connect-to x upstream x target x kind (both tiers); 99 endpoints listen on the in-memory network, the reference expectRoute names the one that must be dialled and checkHop verifies what it received first (request line form, CONNECT authority, SOCKS5 target, TLS hello); every other endpoint must stay untouched; plus (history) ONE proxy with a PAC script that answers by URL (port, path) and host, and EVERY sequence of 2 (quick) / 4 (thorough) requests out of 8 (absolute-form and origin-form GET, CONNECT, an intercepted session with a request inside, same host with different ports/paths, another host): each request must be routed by its own URL whatever was requested before; non-trivial = route compared")
+		"configuration = upstream(21: none, static http/https/socks5, PAC scripts returning each result string of the alphabet incl. errors) x direct-domains(4) x proxy-localhost(3) x connect-to rule list(9, incl. chained/swapped rules) x first connection attempt {succeeds, is refused and retried} x target(6: names, explicit port, localhost, IPv6 literal, loopback IP) x kind(plain HTTP, CONNECT, inside MITM); deviation-bounded exploration (D=3 quick, 4 thorough) plus the full product upstream x direct-domains x localhost mode x target x kind (thorough) and connect-to x upstream x target x kind (both tiers); 99 endpoints listen on the in-memory network, the reference expectRoute names the one that must be dialled and checkHop verifies what it received first (request line form, CONNECT authority, SOCKS5 target, TLS hello); every other endpoint must stay untouched; plus (history) ONE proxy with a PAC script that answers by URL (port, path) and host, and EVERY sequence of 2 (quick) / 4 (thorough) requests out of 8 (absolute-form and origin-form GET, CONNECT, an intercepted session with a request inside, same host with different ports/paths, another host): each request must be routed by its own URL whatever was requested before; non-trivial = route compared")
 	s.Assume = []string{"simnet owns every dial of the proxy", "PAC scripts are evaluated by the real pac package (goja)", "the address dialled is observed after the real DialRedirectFunc (connect-to) ran inside forwarder.Dialer"}
 	s.Add(explore.Scenario{Name: "bounded", Remote: true, MaxDev: map[string]int{"quick": 3, "thorough": 4},
 		Run: func(x *explore.X) { world.Run(t, x, func() { scenario(x, 0) }) }})
